@@ -516,7 +516,7 @@ TreePlan generate(sim::Rng& g) {
     p.nDirs = g.range(1, 3);
     static const char* pk[] = {"a", "b", "util", "bloch"};
     static const char* sub[] = {"x", "y", "lang"};
-    static const char* names[] = {"Alpha", "Beta", "Core", "Delta", "Main", "Zed", "Object", "Util"};
+    static const char* names[] = {"Alpha", "Beta", "Core", "Delta", "Main", "Zed", "Object", "Util", "Bit_Utils", "_Impl", "x9", "A"};
     int nMods = g.range(1, 9);
     int uid = 1;
     auto randPath = [&]() {
@@ -531,7 +531,7 @@ TreePlan generate(sim::Rng& g) {
         Module m;
         m.dir = (int)g.below((uint64_t)p.nDirs);
         m.path = randPath();
-        m.name = names[g.below(8)];
+        m.name = names[g.below(12)];
         if (i > 0 && g.chance(0.35)) {  // shadow candidate: same package path and name as an earlier module, elsewhere
             const Module& o = p.modules[g.below(p.modules.size())];
             m.path = o.path;
@@ -564,6 +564,14 @@ TreePlan generate(sim::Rng& g) {
         }
     }
     p.entry = (int)g.below(std::max<size_t>(1, p.modules.size() / 2));
+    // the entry sometimes wildcard-imports its own package (the loader must skip the entry itself, whatever
+    // spelling the entry was named by)
+    if (!p.modules[(size_t)p.entry].path.empty() && g.chance(0.2)) {
+        Import im;
+        im.pkg = p.modules[(size_t)p.entry].path;
+        im.wildcard = true;
+        p.modules[(size_t)p.entry].imports.push_back(im);
+    }
     // exactly one main by default, on the entry
     p.modules[(size_t)p.entry].hasMain = true;
     // at most one deliberate defect
